@@ -133,11 +133,12 @@ Definition conn_verdict (c : cfg) (ns : str) (r : Res (option pv)) : verdict :=
 
 Definition accept_frames (c : cfg) (ns sid : str) := frames_of c CONNECT (sid_dict sid) ns None.
 
-Lemma accept_frames_ok c ns sid : exists f, accept_frames c ns sid = Ok [PStr f].
+(* one frame: the text packet with the JSON serializer, the packet dict with msgpack *)
+Lemma accept_frames_ok c ns sid : exists f, accept_frames c ns sid = Ok [f].
 Proof.
-  unfold accept_frames, frames_of, ctor, sid_dict.
+  unfold accept_frames, frames_of, ctor, sid_dict, encode_pieces.
   replace (uses_binary c && _) with false by (destruct (uses_binary c); reflexivity).
-  cbn. eexists. reflexivity.
+  destruct (uses_binary c); cbn; eexists; reflexivity.
 Qed.
 Lemma accept_frames_res c ns sid : sp_res (accept_frames c ns sid) = Ok tt.
 Proof. destruct (accept_frames_ok c ns sid) as [f H]. rewrite H. reflexivity. Qed.
@@ -734,11 +735,11 @@ Lemma handle_disconnect_noop c eio pn reason s :
   handle_disconnect c eio pn reason s = (s, [], Ok tt).
 Proof. intro H. unfold handle_disconnect. rewrite bindM_getS, H. reflexivity. Qed.
 
-Lemma disconnect_frames_ok c ns : exists f, frames_of c DISCONNECT PNone ns None = Ok [PStr f].
+Lemma disconnect_frames_ok c ns : exists f, frames_of c DISCONNECT PNone ns None = Ok [f].
 Proof.
-  unfold frames_of, ctor.
+  unfold frames_of, ctor, encode_pieces.
   replace (uses_binary c && _) with false by (destruct (uses_binary c); reflexivity).
-  cbn. eexists. reflexivity.
+  destruct (uses_binary c); cbn; eexists; reflexivity.
 Qed.
 
 Lemma api_disconnect_eq c sid pn s :
@@ -1128,7 +1129,7 @@ Proof.
 Qed.
 Lemma reach_trigger_event c ev ns args : reach (trigger_event c ev ns args).
 Proof.
-  unfold trigger_event. destruct (is_unhashable ev); [apply reach_raise|].
+  unfold trigger_event. destruct (is_unhashable ev && _); [apply reach_raise|].
   destruct (get_event_handler c ev ns args) as [[h a]|].
   - apply reach_bind; [apply reach_call_with_retry|]. intro. apply reach_ret.
   - destruct (get_namespace_handler c ns args) as [[methods a]|]; [|apply reach_ret].
@@ -1715,9 +1716,9 @@ Proof.
   unfold contain, handle_eio_message. rewrite bindM_getS.
   unfold connect_of, classify in Hco.
   destruct (aget str_eqb (binpkt s) eio); [discriminate|].
-  destruct (decode (table_loads tbl) payload) as [r|x]; [|discriminate].
+  destruct (decode_any c (table_loads tbl) payload) as [r|x]; [|discriminate].
   destruct (type_is (rp r) CONNECT) eqn:Ht; [|discriminate].
-  destruct (uses_binary c); [|discriminate]. cbn [andb] in Hco. inversion Hco; subst; clear Hco.
+  inversion Hco; subst; clear Hco.
   rewrite bindM_lift_ok, Ht. unfold st.
   destruct (handle_connect c eio (pns (rp r)) (pdata (rp r)) s) as [[s' e] res]. reflexivity.
 Qed.
@@ -2030,24 +2031,33 @@ Module LcEx.
   Example announced_ex :
     announced c srv_init ops0 = [sid_name 0; sid_name 1; sid_name 2; sid_name 3] /\ fresh s0 = 4.
   Proof. vm_compute. split; reflexivity. Qed.
+
+  (* the msgpack serializer: the CONNECT answer is the packet dictionary *)
+  Definition cM := mkCfg (handlers c) (ns_handlers c) (behav c) (namespaces c) false false.
+  Example connect_msgpack_ex :
+    handle_connect cM e1 (Some plain) PNone s0 =
+    (conn_state s0 e1 plain,
+     [Out e1 (PDict [(PStr (s2l "type"), PInt 0); (PStr (s2l "data"), sid_dict (sid_name 4));
+                     (PStr (s2l "nsp"), PStr plain)])], Ok tt).
+  Proof. vm_compute. reflexivity. Qed.
 End LcEx.
 
 (* ------------------------------------------------------------------ *)
 (* executable form: the model's own run passes the connect part of the *)
 (* C04 checker                                                         *)
 (* ------------------------------------------------------------------ *)
-Lemma unable_frames_ok c ns : exists f, unable_frames c ns = Ok [PStr f].
+Lemma unable_frames_ok c ns : exists f, unable_frames c ns = Ok [f].
 Proof.
-  unfold unable_frames, frames_of, ctor, unable.
+  unfold unable_frames, frames_of, ctor, unable, encode_pieces.
   replace (uses_binary c && _) with false by (destruct (uses_binary c); reflexivity).
-  cbn. eexists. reflexivity.
+  destruct (uses_binary c); cbn; eexists; reflexivity.
 Qed.
 Lemma default_refusal_frames_ok c t ns :
-  t = CONNECT_ERROR \/ t = DISCONNECT -> exists f, frames_of c t (error_args []) ns None = Ok [PStr f].
+  t = CONNECT_ERROR \/ t = DISCONNECT -> exists f, frames_of c t (error_args []) ns None = Ok [f].
 Proof.
-  intros [->| ->]; unfold frames_of, ctor;
+  intros [->| ->]; unfold frames_of, ctor, encode_pieces;
     (replace (uses_binary c && _) with false by (destruct (uses_binary c); reflexivity));
-    cbn; eexists; reflexivity.
+    destruct (uses_binary c); cbn; eexists; reflexivity.
 Qed.
 Lemma frames_eqb_refl fr : frames_eqb fr (Ok fr) = true.
 Proof. apply (list_eqb_eq pv_eqb pv_eqb_eq). reflexivity. Qed.
@@ -2074,8 +2084,9 @@ Proof. apply (list_eqb_eq pv_eqb pv_eqb_eq). reflexivity. Qed.
 Lemma refusal_frames_both c why ns fr :
   frames_of c CONNECT_ERROR why ns None = Ok fr -> exists fr', frames_of c DISCONNECT why ns None = Ok fr'.
 Proof.
-  unfold frames_of, ctor. destruct (uses_binary c && has_bytes why); [discriminate|].
-  cbn [bind]. unfold encode. cbn [ptype pdata pns pid].
+  unfold frames_of, ctor, encode_pieces. destruct (uses_binary c && has_bytes why); [discriminate|].
+  cbn [bind]. destruct (uses_binary c); [|intros _; eexists; reflexivity].
+  unfold encode. cbn [ptype pdata pns pid].
   change ((CONNECT_ERROR =? BINARY_EVENT)%Z || (CONNECT_ERROR =? BINARY_ACK)%Z) with false.
   change ((DISCONNECT =? BINARY_EVENT)%Z || (DISCONNECT =? BINARY_ACK)%Z) with false. cbv iota.
   destruct (match why with PNone => Ok [] | _ => json_dumps why end) as [js|x]; [|discriminate].
@@ -2141,7 +2152,7 @@ Proof.
     forallb (str_eqb eio) (out_eios (snd (fst run))) &&
     ((if match frames_of c CONNECT_ERROR why ns None with Err _ => true | Ok _ => false end then true
       else if always_connect c
-           then frames_eqb (outs_of eio (snd (fst run))) (app_res (Ok [PStr fa]) (frames_of c DISCONNECT why ns None))
+           then frames_eqb (outs_of eio (snd (fst run))) (app_res (Ok [fa]) (frames_of c DISCONNECT why ns None))
            else frames_eqb (outs_of eio (snd (fst run))) (frames_of c CONNECT_ERROR why ns None)) &&
      negb (is_member (mg (st run)) sid)) = true).
   { intros why Hw.
@@ -2173,7 +2184,7 @@ Proof.
       destruct (always_connect c).
       * rewrite calls_of_app, calls_of_map_out, out_eios_app, outs_of_app, outs_of_map_out. cbn [app].
         rewrite calls_of_cons_call, outs_of_cons_call. cbn [calls_of outs_of flat_map].
-        rewrite N.eqb_refl, pvl_refl, forallb_app, eios_map_out. cbn. rewrite str_eqb_refl. reflexivity.
+        rewrite N.eqb_refl, pvl_refl, forallb_app, eios_map_out. cbn [andb forallb out_eios flat_map app]. apply frames_eqb_refl.
       * rewrite calls_of_cons_call, calls_of_map_out, outs_of_cons_call, out_eios_cons_call, outs_of_map_out, eios_map_out.
         rewrite N.eqb_refl, pvl_refl. cbn [andb]. apply frames_eqb_refl.
   - apply Hrefused. reflexivity.
